@@ -6,6 +6,7 @@
 //! schema(s) and a set of JSON instances as a Gallina term for Run_C08.judge.
 mod gallina;
 mod gen;
+mod large;
 mod pipe;
 mod types;
 
@@ -18,7 +19,7 @@ use serde_json::{json, Value};
 use std::io::Write;
 
 fn g_defs(defs: &[(String, Schema)]) -> String {
-    g_list(defs, |(n, s)| format!("({},{})", g_str(&format!("{}{}", REF_PREFIX, n)), g_schema(s)))
+    g_list(defs, |(n, s)| format!("({},{})", gallina::g_ref(&format!("{}{}", REF_PREFIX, n)), g_schema(s)))
 }
 
 fn g_obs(site_schema: &Value, comps: &[(String, Value)]) -> String {
@@ -29,7 +30,7 @@ fn g_obs(site_schema: &Value, comps: &[(String, Value)]) -> String {
     let mut cs = vec![];
     for (n, v) in comps {
         match g_oas(v) {
-            Ok(c) => cs.push(format!("({},{})", g_str(&format!("{}{}", REF_PREFIX, n)), c)),
+            Ok(c) => cs.push(format!("({},{})", gallina::g_ref(&format!("{}{}", REF_PREFIX, n)), c)),
             Err(_) => return "ObsUnparsed".to_string(),
         }
     }
@@ -39,6 +40,9 @@ fn g_obs(site_schema: &Value, comps: &[(String, Value)]) -> String {
 struct Emit<'a> {
     out: &'a mut dyn Write,
     count: usize,
+    /// large-scope cases: the JSON line carries the recipe and extra tags instead
+    /// of the (possibly very deep) schema and observation
+    over: Option<(Value, Vec<String>)>,
 }
 
 /// one line: a conversion site with its source, observation and instances
@@ -75,6 +79,14 @@ fn emit_case(
             "defs": defs_json(&src.defs).into_iter().map(|(n, s)| json!([n, s])).collect::<Vec<_>>(),
         },
     });
+    let (case, obs_j) = match &e.over {
+        Some((recipe, extra)) => {
+            tags.extend(extra.iter().cloned());
+            let panicked = obs_j["published"] == json!("panic");
+            (recipe.clone(), json!({"large": true, "panic": panicked, "note": "schema, published schema and instances are rebuilt from the recipe; see the coq term"}))
+        }
+        None => (case, obs_j),
+    };
     tags.push(format!("instances:{}", (instances.len() / 4) * 4));
     let nodes = schema_nodes(&src.schema) + src.defs.iter().map(|(_, d)| schema_nodes(d)).sum::<usize>();
     tags.push(format!("nodes:{}", if nodes >= 12 { "12+".to_string() } else { format!("{:02}", nodes) }));
@@ -166,6 +178,75 @@ fn run_dyn_case(e: &mut Emit, group: &'static str, case: &Value) {
             emit_case(e, group, case.clone(), param, None, &src, g, obs_j, &instances, tags, nt);
         }
     }
+}
+
+/// a large-scope case: rebuild schema/definitions/instances from the recipe and
+/// run it exactly as a dynamic-schema case
+fn run_large_case(e: &mut Emit, recipe: &Value) {
+    let (built, tags) = match recipe["kind"].as_str() {
+        Some("large") => {
+            let dim = recipe["dim"].as_str().unwrap();
+            let n = recipe["n"].as_u64().unwrap() as usize;
+            let c = large::cap(dim, n);
+            let tag = if c == n { format!("large:{}:{}", dim, n) } else { format!("large:{}:{}(capped from {})", dim, c, n) };
+            (large::build(dim, n), vec![tag, "large".to_string()])
+        }
+        Some("large-bound") => {
+            let label = recipe["label"].as_str().unwrap();
+            let delta = recipe["delta"].as_i64().unwrap();
+            let kw = recipe["kw"].as_str().unwrap();
+            let ty = recipe["ty"].as_str().unwrap();
+            match large::build_bound(label, delta, kw, ty) {
+                Some(b) => (b, vec![format!("large:bound:{}{:+}", label, delta), format!("large:bound-keyword:{}:{}", ty, kw), "large".to_string()]),
+                None => return,
+            }
+        }
+        Some("large-count") => {
+            let kw = recipe["kw"].as_str().unwrap();
+            let n = recipe["n"].as_u64().unwrap();
+            (large::build_count_limit(kw, n), vec![format!("large:count-limit:{}", n), format!("large:count-keyword:{}", kw), "large".to_string()])
+        }
+        _ => return,
+    };
+    let dj: Vec<Value> = built.defs.iter().map(|(n, d)| json!([n, d])).collect();
+    let full = json!({"kind": "dyn", "site": built.site, "tyname": "L", "schema": built.schema,
+                      "defs": dj, "instances": built.instances});
+    e.over = Some((recipe.clone(), tags));
+    run_dyn_case(e, "large", &full);
+    e.over = None;
+}
+
+fn large_recipes(thorough: bool) -> Vec<Value> {
+    let mut v = vec![];
+    for dim in large::DIMS {
+        let mut seen = std::collections::BTreeSet::new();
+        for n in large::sizes(thorough) {
+            // sizes beyond a dimension's cap collapse to the cap: once
+            if seen.insert(large::cap(dim, n)) {
+                v.push(json!({"kind": "large", "dim": dim, "n": n}));
+            }
+        }
+    }
+    let (kws, tys): (&[&str], &[&str]) =
+        if thorough { (large::BOUND_KWS, &["integer", "number"]) } else { (&["minimum", "maximum", "exclusiveMaximum"], &["integer"]) };
+    for (label, _) in large::boundaries() {
+        for delta in [-1i64, 0, 1] {
+            for kw in kws {
+                for ty in tys {
+                    v.push(json!({"kind": "large-bound", "label": label, "delta": delta, "kw": kw, "ty": ty}));
+                }
+            }
+            if !thorough {
+                v.push(json!({"kind": "large-bound", "label": label, "delta": delta, "kw": "maximum", "ty": "number"}));
+            }
+        }
+    }
+    for kw in large::COUNT_KWS {
+        for n in large::COUNT_LIMITS {
+            v.push(json!({"kind": "large-count", "kw": kw, "n": n}));
+        }
+    }
+    v
 }
 
 // ---------------------------------------------------------------- derived family
@@ -444,7 +525,7 @@ fn gen_param_case(r: &mut Rng, idx: usize, max_inst: usize) -> Value {
 }
 
 fn run(opts: &Opts, replay: Option<Vec<Value>>, out: &mut dyn Write) {
-    let mut e = Emit { out, count: 0 };
+    let mut e = Emit { out, count: 0, over: None };
     // util::Rng streams of nearby seeds are the same sequence shifted by a few
     // steps (splitmix64 with a fixed increment) and re-synchronise at a case
     // boundary; spread the seeds over the cycle first
@@ -457,39 +538,92 @@ fn run(opts: &Opts, replay: Option<Vec<Value>>, out: &mut dyn Write) {
             match c["kind"].as_str() {
                 Some("dyn") => run_dyn_case(&mut e, "replay", &c),
                 Some("derived") => run_derived_case(&mut e, &c, &mut r, max_inst),
+                Some("large") | Some("large-bound") | Some("large-count") => run_large_case(&mut e, &c),
                 _ => {}
             }
         }
         return;
     }
     let (n_sup, n_inj_each, n_param) = if opts.thorough { (4000, 50, 500) } else { (600, 8, 80) };
+    enum Job {
+        Derived(Value),
+        Dyn(&'static str, Value),
+    }
+    let mut ord: Vec<Job> = vec![];
     // (ii) the derived family, at both body sites and as query parameters
     for t in type_family() {
         for site in [Site::Response, Site::Body] {
-            let c = json!({"kind": "derived", "type": t.name, "site": site.name()});
-            run_derived_case(&mut e, &c, &mut r, max_inst);
+            ord.push(Job::Derived(json!({"kind": "derived", "type": t.name, "site": site.name()})));
         }
     }
     for t in param_family() {
-        let c = json!({"kind": "derived", "type": t.name, "site": "param"});
-        run_derived_case(&mut e, &c, &mut r, max_inst);
+        ord.push(Job::Derived(json!({"kind": "derived", "type": t.name, "site": "param"})));
     }
     // (i) generated schemas inside the supported fragment
     for i in 0..n_sup {
-        let c = gen_dyn_case(&mut r, i, None, max_inst);
-        run_dyn_case(&mut e, "generated", &c);
+        ord.push(Job::Dyn("generated", gen_dyn_case(&mut r, i, None, max_inst)));
     }
     // the lossy / unsupported stream: one injected keyword
     for w in gen::INJECTIONS {
         for i in 0..n_inj_each {
-            let c = gen_dyn_case(&mut r, i, Some(w), max_inst);
-            run_dyn_case(&mut e, "injected", &c);
+            ord.push(Job::Dyn("injected", gen_dyn_case(&mut r, i, Some(w), max_inst)));
         }
     }
     // parameters (scalars through schema2struct + the Static path)
     for i in 0..n_param {
-        let c = gen_param_case(&mut r, i, max_inst);
-        run_dyn_case(&mut e, "param", &c);
+        ord.push(Job::Dyn("param", gen_param_case(&mut r, i, max_inst)));
+    }
+    // the deterministic large-scope slice (sizes across 15/16/17 ... 255/256/257;
+    // thorough ... 1023/1024/1025).  The driver evaluates contiguous blocks of
+    // lines in 16 parallel coqc runs: spread the expensive large cases evenly
+    // over 16 blocks (longest-processing-time first on a cost estimate).
+    const BLOCKS: usize = 16;
+    let mut lg: Vec<(u64, Value)> = large_recipes(opts.thorough).into_iter().map(|c| (large_cost(&c), c)).collect();
+    lg.sort_by(|a, b| b.0.cmp(&a.0));
+    let mut bins: Vec<(u64, Vec<Value>)> = (0..BLOCKS).map(|_| (0u64, vec![])).collect();
+    for (cost, c) in lg {
+        // expensive cases: to the block with the least accumulated cost; cheap
+        // ones: to the block with the fewest cases, so that the blocks stay
+        // aligned with the driver's equal-count shards
+        let i = if cost >= 200 {
+            (0..BLOCKS).min_by_key(|i| bins[*i].0).unwrap()
+        } else {
+            (0..BLOCKS).min_by_key(|i| bins[*i].1.len()).unwrap()
+        };
+        bins[i].0 += cost + 1;
+        bins[i].1.push(c);
+    }
+    let per = (ord.len() + BLOCKS - 1) / BLOCKS;
+    let mut it = ord.into_iter();
+    for bin in bins {
+        for _ in 0..per {
+            match it.next() {
+                Some(Job::Derived(c)) => run_derived_case(&mut e, &c, &mut r, max_inst),
+                Some(Job::Dyn(g, c)) => run_dyn_case(&mut e, g, &c),
+                None => break,
+            }
+        }
+        for c in bin.1 {
+            run_large_case(&mut e, &c);
+        }
+    }
+}
+
+/// rough relative cost of evaluating a large case in Coq (measured: reference
+/// chains and property lookups are quadratic in n, nesting is linear)
+fn large_cost(recipe: &Value) -> u64 {
+    if recipe["kind"] != json!("large") {
+        return 1;
+    }
+    let dim = recipe["dim"].as_str().unwrap();
+    let n = large::cap(dim, recipe["n"].as_u64().unwrap() as usize) as u64;
+    match dim {
+        "ref-chain-recursive" => n * n * 14 / 100,
+        "ref-chain" | "definitions" => n * n * 9 / 100,
+        "properties" => n * n * 3 / 100,
+        "depth-object" => n * 8,
+        d if d.starts_with("depth-") => n * 4,
+        _ => n / 4 + 1,
     }
 }
 
